@@ -64,6 +64,16 @@ Extensions (round 3; meaning of the primitives: lean/Qv/Gen/Prelude{M,Obj,Pcbo,C
               list of yielded pairs; functions nested in a function (`outer.inner`); `loop_body` partial
               translations may identify the loop by a marker statement alone; `isinstance(k, tuple)` on a key is
               statically true (`a if isinstance(k, tuple) else b` keeps `a`)
+  reshapings  (exact syntactic equivalences, accepted so that harmless refactorings keep the tie; robustness round)
+              `continue` in a loop body -> what the loop does after one pass of its body, with the locals as they are
+              (so `if c: A; continue` + rest  ==  `if c: A else: rest`);  `a = b = <int literal>` -> `a = …; b = …`;
+              a partial translation's loop `for <targets> in <source>` is also found under renamed target variables
+              (alpha-renamed back to the registry's names, which must be fresh in the function);
+              a registered NESTED function that is no longer inside its outer function is looked up as the one private
+              module-level function (bound once, by `def`) the outer function calls (a closure-free helper hoisted to
+              module level, possibly renamed); calls of it resolve to the same generated definition;
+              a call `f(x)` of a nested `def f(p): return e` (bound once; e reads only p and non-locals) on a plain
+              local -> e with p replaced by x
 Each generated unit goes to its own file (UNITS) so that a source edit in one cannot disturb the obligations that
 use another; `not_translated` in the manifest lists, per function, what is deliberately outside the translation.
 """
@@ -1109,6 +1119,18 @@ class Fn:
             return self.call_self(n, env)
         if name in self.done:
             return self.call_registered(name, n, env)
+        hoisted = [k for k, i in self.done.items() if i.get("hoisted_as") == name and i.get("nested")
+                   and k.startswith(self.e["func"] + ".") and i["file"] == self.e["file"]]
+        if len(hoisted) == 1 and hoisted_helper_ok(ast.parse(self.src), name) \
+                and name not in self.assigned([x for x in self.fnode.body if not isinstance(x, ast.FunctionDef)]) \
+                and not any(isinstance(x, ast.FunctionDef) and x.name == name for x in ast.walk(self.fnode)):
+            # the registered nested helper, hoisted unchanged to module level (it captures nothing): the same callee
+            callee = self.done[hoisted[0]]
+            if callee["status"] != "translated":
+                raise Untranslatable("call of %s, which is itself %s" % (name, callee["status"]), n)
+            args = self.pass_args(name, n, env, callee["param_tys"], False)
+            call = "(%s %s)" % (callee["lean"], " ".join(args))
+            return self.bind(call, callee["ret_ty"], n) if callee["raises"] else (call, callee["ret_ty"])
         inner = "%s.%s" % (self.e["func"], name)
         if inner in self.done and self.done[inner].get("nested") and self.done[inner]["file"] == self.e["file"] \
                 and sum(1 for x in ast.walk(self.fnode) if isinstance(x, ast.FunctionDef) and x.name == name) == 1 \
@@ -1119,6 +1141,17 @@ class Fn:
             args = self.pass_args(name, n, env, callee["param_tys"], False)
             call = "(%s %s)" % (callee["lean"], " ".join(args))
             return self.bind(call, callee["ret_ty"], n) if callee["raises"] else (call, callee["ret_ty"])
+        pe = local_single_return_helper(self.fnode, name)
+        if pe is not None and len(args) == 1 and isinstance(args[0], ast.Name) and args[0].id in env:
+            # a nested `def f(p): return e` (bound once, reading only p and non-locals) called on a plain local:
+            # its return expression with the parameter replaced by that local
+            import copy
+            p, e, arg = pe[0], pe[1], args[0].id
+
+            class S(ast.NodeTransformer):
+                def visit_Name(self, x):
+                    return ast.copy_location(ast.Name(id=arg, ctx=x.ctx), x) if x.id == p else x
+            return self.expr(ast.fix_missing_locations(S().visit(copy.deepcopy(e))), env)
         raise Untranslatable("call of %s" % name, n)
 
     def need_module_alias(self, module, alias, node):
@@ -1467,6 +1500,18 @@ class Fn:
                 raise Untranslatable("raise of something that is not a builtin exception of the model's enum", s)
             v = "(Except.error %s)" % EXC[name]
             return "(Flow.ret %s)" % v if flow else v
+        if isinstance(s, ast.Continue):
+            # the rest of this iteration is skipped: what the loop does after its body, with the locals as they are now
+            if rest:
+                raise Untranslatable("statement after continue", rest[0])
+            if not getattr(self, "loop_k", None) or self.loop_k[-1] is None:
+                raise Untranslatable("continue outside a translated loop", s)
+            return self.loop_k[-1](env)
+        if isinstance(s, ast.Assign) and len(s.targets) > 1 and all(isinstance(t, ast.Name) for t in s.targets) \
+                and isinstance(s.value, ast.Constant) and isinstance(s.value.value, int) and not isinstance(s.value.value, bool):
+            # `a = b = <int literal>`: the targets are bound left to right to the same immutable number
+            split = [ast.copy_location(ast.Assign(targets=[t], value=s.value), s) for t in s.targets]
+            return self.stmt(split + list(rest), env, k, ind, flow)
         if isinstance(s, ast.Assign):
             if len(s.targets) != 1:
                 raise Untranslatable("chained assignment", s)
@@ -1685,18 +1730,33 @@ class Fn:
         rebind = "".join("let %s : %s := %s;\n%s" % (mg(x), lean_ty(t), proj("_py_acc", i, len(accs)), pad)
                          for i, (x, t) in enumerate(zip(accs, acc_tys)))
         env_after = dict(env)             # locals first assigned inside the loop are not visible afterwards
+        return self.for_render(s, env, cont, ind, pad, src, et, accs, acc_ty, init, unpack, lets, env_body, has_ret,
+                               after_body, rebind, env_after)
+
+    def loop_block(self, stmts, env_body, after_body, ind, flow):
+        """the body of a loop: `continue` in it goes to `after_body` (what the loop does after one pass of its body)"""
+        if not hasattr(self, "loop_k"):
+            self.loop_k = []
+        self.loop_k.append(after_body)
+        try:
+            return self.block(stmts, env_body, after_body, ind, flow)
+        finally:
+            self.loop_k.pop()
+
+    def for_render(self, s, env, cont, ind, pad, src, et, accs, acc_ty, init, unpack, lets, env_body, has_ret, after_body,
+                   rebind, env_after):
         if self.monadic:
-            body = self.block(s.body, env_body, after_body, ind + 4, None)
+            body = self.loop_block(s.body, env_body, after_body, ind + 4, None)
             return ("((pyForM %s %s (fun (_py_acc : %s) (_py_it : %s) =>\n%s    %s%s\n%s    %s)) >>= "
                     "fun (_py_acc : %s) =>\n%s%s%s)" % (
                         src, init, lean_ty(acc_ty), lean_ty(et), pad, unpack, lets, pad, body, lean_ty(acc_ty), pad,
                         rebind, cont(env_after)))
         if not has_ret:
-            body = self.block(s.body, env_body, after_body, ind + 4, None)
+            body = self.loop_block(s.body, env_body, after_body, ind + 4, None)
             return "let _py_acc : %s := List.foldl (fun (_py_acc : %s) (_py_it : %s) =>\n%s    %s%s\n%s    %s) %s %s;\n%s%s%s" % (
                 lean_ty(acc_ty), lean_ty(acc_ty), lean_ty(et), pad, unpack, lets, pad, body, init, src, pad, rebind,
                 cont(env_after))
-        body = self.block(s.body, env_body, after_body, ind + 4, True)
+        body = self.loop_block(s.body, env_body, after_body, ind + 4, True)
         pad2 = pad + "  "
         return ("(Flow.elim (pyFor %s %s (fun (_py_acc : %s) (_py_it : %s) =>\n%s    %s%s\n%s    %s))\n"
                 "%s  (fun _py_r => _py_r)\n%s  (fun (_py_acc : %s) =>\n%s%s%s))" % (
@@ -1766,6 +1826,11 @@ class Fn:
                             yield y
             loops = [s for s in all_stmts(body) if isinstance(s, ast.For) and ast.dump(s.target) == ast.dump(want.target)
                      and ast.dump(s.iter) == ast.dump(want.iter)]
+            if not loops:
+                # the same loop with renamed target variable(s): alpha-renamed back to the registry's names (which must be
+                # fresh in the function)
+                loops = self.renamed_loops([s for s in all_stmts(body) if isinstance(s, ast.For)
+                                            and ast.dump(s.iter) == ast.dump(want.iter)], want.target)
             if len(loops) != 1:
                 raise Untranslatable("loop `for %s in %s` not found exactly once" % (lb["target"], lb["source"]), f)
             body = list(loops[0].body)
@@ -1782,6 +1847,34 @@ class Fn:
                     raise Untranslatable("loop body does not start with %r" % lb["after"], loops[0])
                 body = body[1:]
         return body
+
+    def renamed_loops(self, cands, want_target):
+        """loops whose target has the shape of `want_target` (a name / a flat tuple of names) under other names: copies with
+        the target names consistently renamed to the wanted ones everywhere in the loop; a wanted name that already
+        occurs in the function (a possible capture) disqualifies the loop"""
+        import copy
+        names = lambda t: [t.id] if isinstance(t, ast.Name) else \
+            [x.id for x in t.elts] if isinstance(t, ast.Tuple) and all(isinstance(x, ast.Name) for x in t.elts) else None  # noqa: E731
+        want = names(want_target)
+        used = {x.id for x in ast.walk(self.fnode) if isinstance(x, ast.Name)} | {a.arg for a in ast.walk(self.fnode)
+                                                                                 if isinstance(a, ast.arg)}
+        out = []
+        for l in cands:
+            got = names(l.target)
+            if want is None or got is None or len(got) != len(want) or type(l.target) is not type(want_target) \
+                    or len(set(got)) != len(got):
+                continue
+            ren = {g: w for g, w in zip(got, want) if g != w}
+            if any(w in used for w in ren.values()):
+                continue
+            l2 = copy.deepcopy(l)
+            for x in ast.walk(l2):
+                if isinstance(x, ast.Name) and x.id in ren:
+                    x.id = ren[x.id]
+                elif isinstance(x, ast.arg) and x.arg in ren:
+                    x.arg = ren[x.arg]
+            out.append(l2)
+        return out
 
     def check_signature(self):
         e, a = self.e, self.fnode.args
@@ -1899,6 +1992,73 @@ def freeze(t):
     return t
 
 
+def local_single_return_helper(fnode, name):
+    """`def name(p): return e` nested directly or indirectly in `fnode`, `name` bound nowhere else in it, `e` reading only
+    `p` and names that are not locals of `fnode`, without scopes of its own: (p, e); None otherwise"""
+    defs = [x for x in ast.walk(fnode) if isinstance(x, ast.FunctionDef) and x is not fnode and x.name == name]
+    if len(defs) != 1:
+        return None
+    s = defs[0]
+    a = s.args
+    if len(a.args) != 1 or a.vararg or a.kwarg or a.kwonlyargs or a.defaults or a.posonlyargs or s.decorator_list:
+        return None
+    body = [x for x in s.body if not (isinstance(x, ast.Expr) and isinstance(x.value, ast.Constant)
+                                      and isinstance(x.value.value, str))]
+    if len(body) != 1 or not isinstance(body[0], ast.Return) or body[0].value is None:
+        return None
+    binds = [x.id for x in ast.walk(fnode) if isinstance(x, ast.Name) and isinstance(x.ctx, ast.Store)] + \
+        [x.name for x in ast.walk(fnode) if isinstance(x, (ast.FunctionDef, ast.ClassDef)) and x is not fnode] + \
+        [x.arg for x in fnode.args.args + fnode.args.kwonlyargs] + \
+        [x.arg for x in (fnode.args.vararg, fnode.args.kwarg) if x is not None]
+    if binds.count(name) != 1 or any(isinstance(x, (ast.Global, ast.Nonlocal)) for x in ast.walk(fnode)):
+        return None
+    e, p = body[0].value, a.args[0].arg
+    if any(isinstance(x, (ast.Lambda, ast.GeneratorExp, ast.ListComp, ast.SetComp, ast.DictComp, ast.NamedExpr, ast.Yield,
+                          ast.YieldFrom, ast.Await)) for x in ast.walk(e)):
+        return None
+    if ({x.id for x in ast.walk(e) if isinstance(x, ast.Name)} - {p}) & set(binds):
+        return None
+    return p, e
+
+
+def hoisted_helper_ok(tree, name):
+    """`name` is bound exactly once at module level, by a plain `def`, and no `global name` rebinding exists"""
+    hits = 0
+    for s in tree.body:
+        if isinstance(s, (ast.Import, ast.ImportFrom)):
+            hits += 100 * sum(1 for a in s.names if (a.asname or a.name).split(".")[0] == name)
+        elif isinstance(s, ast.FunctionDef):
+            hits += (1 if not s.decorator_list else 100) if s.name == name else 0
+        elif isinstance(s, (ast.ClassDef, ast.AsyncFunctionDef)):
+            hits += 100 if s.name == name else 0
+        else:
+            hits += 100 * sum(1 for x in ast.walk(s) if isinstance(x, ast.Name) and isinstance(x.ctx, ast.Store) and x.id == name)
+    if any(isinstance(x, (ast.Global, ast.Nonlocal)) and name in x.names for x in ast.walk(tree)):
+        return False
+    return hits == 1
+
+
+def find_hoisted(tree, qual, registered):
+    """A registered NESTED function `outer.inner` that is no longer inside `outer`: the one module-level private function
+    `outer` calls by name that is not itself registered (a nested def that captures nothing, moved to module level,
+    possibly renamed).  Returns (node, name) or None; exactly one candidate or nothing."""
+    parts = qual.split(".")
+    if len(parts) != 2:
+        return None
+    outer = find_function(tree, parts[0])
+    if outer is None:
+        return None
+    bound = {a.arg for a in outer.args.args + outer.args.kwonlyargs} | \
+        {x.id for x in ast.walk(outer) if isinstance(x, ast.Name) and isinstance(x.ctx, ast.Store)} | \
+        {x.name for x in ast.walk(outer) if isinstance(x, ast.FunctionDef) and x is not outer}
+    called = {x.func.id for x in ast.walk(outer) if isinstance(x, ast.Call) and isinstance(x.func, ast.Name)}
+    cands = [s for s in tree.body if isinstance(s, ast.FunctionDef) and s.name in called and s.name not in bound
+             and s.name not in registered and s.name.startswith("_") and hoisted_helper_ok(tree, s.name)]
+    if len(cands) != 1:
+        return None
+    return cands[0], cands[0].name
+
+
 def find_function(tree, qual):
     parts, body = qual.split("."), tree.body
     node = None
@@ -1977,12 +2137,20 @@ def translate_all():
             except SyntaxError as err:
                 raise Untranslatable("source file does not parse: %s" % err)
             f = find_function(tree, e["func"])
+            hoisted_as = None
+            if f is None and e.get("nested"):
+                h = find_hoisted(tree, e["func"], {x["func"] for x in REGISTRY if x["file"] == e["file"]})
+                if h is not None:
+                    f, hoisted_as = h
             if f is None:
                 raise Untranslatable("function %s not found exactly once" % e["func"])
             seg = ast.get_source_segment(src, f)
             rec["source_hash"] = hashlib.sha256(seg.encode()).hexdigest()[:16]
             rec["lines"] = [f.lineno, f.end_lineno]
             fn = e.get("fn_class", Fn)(e, src, f, done)
+            if hoisted_as is not None:
+                fn.own_name = hoisted_as            # its recursive calls use the module-level name
+                info["hoisted_as"] = hoisted_as
             binders, ptys, rty, body = fn.translate()
             info.update(status="translated", param_tys=ptys, ret_ty=fn.ret_ty, raises=fn.raises,
                         vararg=bool(e.get("vararg")), kwonly=e.get("kwonly", []), func=e["func"],
